@@ -37,6 +37,9 @@ def make_conn(stream, fail_at=None):
 
     def makefile(interp, base, args, kwargs, node):
         mode = args[0] if args else 'r'
+        buffering = kwargs.get('buffering', args[1] if len(args) > 1 else -1)
+        if 'r' in mode and buffering != 0:
+            st['rbuf'] = []           # a buffered reader: one read pulls in everything that has arrived, select() no longer sees it
         f = pm.AMock('rfile' if 'r' in mode else 'wfile', {
             'read': read, 'close': lambda i, b, a, k, n: st['closed'].append(b.name),
             'write': write, 'flush': lambda i, b, a, k, n: None})
@@ -52,13 +55,21 @@ def make_conn(stream, fail_at=None):
     def read(interp, base, args, kwargs, node):
         if args and args[0] != 1:
             return Opaque('read(n != 1)')
+        if st.get('rbuf'):
+            return AList([st['rbuf'].pop(0)], 'bytes')          # served from the user-space buffer
         if not st.get('polled_ok'):
             log_event('blocking-read')      # a read without a positive poll may block
         st['polled_ok'] = False
         while st['stream'] and st['stream'][0] == GAP:
             st['stream'].pop(0)
         if st['stream']:
-            return AList([st['stream'].pop(0)], 'bytes')
+            first = st['stream'].pop(0)
+            if 'rbuf' in st:
+                while st['stream'] and st['stream'][0] != GAP:
+                    st['rbuf'].append(st['stream'].pop(0))
+            return AList([first], 'bytes')
+        if st.get('live'):
+            raise AbsRaise('NonTermination', node)          # the peer is still there and silent: a read blocks for good
         st['eof_seen'] = True
         if st.get('reset'):
             # the peer died (or closed with unread input): the kernel reports a reset instead of an orderly end of stream
@@ -87,6 +98,8 @@ def install_select(ai):
             readable = bool(st['accept_queue'])
         elif st['stream'] and st['stream'][0] == GAP:
             st['stream'].pop(0)
+        elif not st['stream'] and st.get('live'):
+            readable = False
         elif st['stream'] or not st['eof_seen']:
             readable = True
         st['polled_ok'] = readable
@@ -202,6 +215,48 @@ def r18_1(ctx):
         ctx.require(ok, 'R18.1', 'poll(nothing readable)', w, f'{oc}', construct=f'{rc.qname}::idle')
     for q in ai.inlined:
         ctx.functions.add(q)
+
+
+def r18_live(ctx):
+    """R18.6: a complete message that arrived in one segment on a connection that STAYS OPEN is handed out by the next polls.
+    (Reads are gated by select() on the socket; a reader that buffers in user space takes the whole segment with its first
+    read, select() then reports nothing and the rest of the message is never looked at: receive() blocks forever.)"""
+    ai = pm.make_interp(ctx)
+    install_select(ai)
+    sp = ctx.p.cls(S, 'SocketPort')
+    rc = sp.methods.get('_receive')
+    if rc is None:
+        raise AnalysisError('SocketPort._receive not found')
+    w = ctx.where(rc)
+    n1, v1 = smf.sym('n1', 127), smf.sym('v1', 127)
+    n = 0
+    for label, stream, want in (('one note_on in one segment', [0x93, n1, v1], ['note_on']),
+                                ('two messages in one segment', [0x93, n1, v1, 0xf8], ['note_on', 'clock']),
+                                ('a message in two segments', [0x93, n1, GAP, v1], ['note_on'])):
+        def thunk(stream=stream):
+            port, conn = build(ai, ctx, list(stream))
+            conn.state['live'] = True
+            got = []
+            for _ in range(6):
+                m = pm.call(ai, ctx, port, 'poll')
+                if m is not None:
+                    got.append(m)
+            return got, port
+        outs = ai.explore(thunk)
+        n += 1
+        oc = c11.one(ctx, 'R18.6', f'live connection: {label}, six polls', w, outs, f'{rc.qname}::live')
+        if oc is None:
+            continue
+        if oc.kind != 'return':
+            ctx.fail('R18.6', f'live connection: {label}, six polls', w, f'polling a live connection: {oc} (NonTermination: a read that blocks)',
+                     construct=f'{rc.qname}::live')
+            continue
+        got, port = oc.value
+        types = [m.attrs.get('type') if isinstance(m, AObj) else m for m in got]
+        ctx.require(types == want and port.attrs.get('closed') is False, 'R18.6', f'live connection: {label}, six polls', w,
+                    f'six polls hand out {types} (closed = {port.attrs.get("closed")!r}); the complete messages {want} have arrived and the peer is '
+                    'still connected', construct=f'{rc.qname}::live')
+    ctx.floor('R18.6', n, 3)
 
 
 def r18_3(ctx):
@@ -364,4 +419,4 @@ def r18_5(ctx):
     ctx.floor('R18.5', n, 4)
 
 
-RULES = [('R18.1', r18_1), ('R18.3', r18_3), ('R18.4', r18_4), ('R18.5', r18_5)]
+RULES = [('R18.6', r18_live), ('R18.1', r18_1), ('R18.3', r18_3), ('R18.4', r18_4), ('R18.5', r18_5)]
